@@ -62,10 +62,15 @@ def job(item):
                 out["records"].append({"kind": "inconclusive", "tag": tag, "why": f"translation: {e}"[:160]})
                 continue
             out["checked"] += 1
-            if not twin_done:
+            if not twin_done and k >= 1:
                 twin_done = True
                 if mc.twin(I, ek, None) != "sat":
                     out["records"].append({"kind": "harness", "tag": tag, "why": "reachability twin not sat"})
+                # self-mutant: a deliberately wrong reference (exact expectation + 1) must be refuted by the same encoding
+                mv, _, _ = mc.compare(ek + 1, I, seqs[g][k], None, 20000)
+                out["mutants"] = out.get("mutants", 0) + 1
+                if mv != "sat":
+                    out["records"].append({"kind": "harness", "tag": tag, "why": f"self-mutant not refuted: {mv}"})
             if verdict == "unknown":
                 out["records"].append({"kind": "inconclusive", "tag": tag, "why": "solver unknown/timeout"})
             elif verdict == "sat":
@@ -116,6 +121,7 @@ def collect(run, results, items):
         if val["checked"]:
             programs += 1
             checked += val["checked"]
+            run.coverage["self_mutants_refuted"] = run.coverage.get("self_mutants_refuted", 0) + val.get("mutants", 0)
         for r in val["records"]:
             if r["kind"] == "violation":
                 run.violation(r["key"], r["what"], r["replay"])
@@ -134,6 +140,7 @@ def main():
         return replay_file(run)
     items, N = build_items(run)
     results = jobs.run_jobs(job, items, timeout=300 if run.quick else 600)
+    run.notes.append({"slowest_jobs": jobs.slowest(items, lambda it: it["id"])})
     programs, checked = collect(run, results, items)
     run.functions = ["inputparser.parser:Parser.parse_string", "program.transformer:normalize_program",
                      "recurrences.rec_builder:RecBuilder.get_recurrences", "recurrences.solver:RecurrenceSolver.get",
